@@ -525,6 +525,14 @@ func (c *Ctx) RuleC(in func(*ssa.Function) bool) int {
 				continue
 			}
 			e, kept := errValue(call)
+			// the digest helpers have no error result: their failure is the "no value"
+			// outcome. A helper whose failing returns hand back nil next to the error,
+			// called with the error left aside and its value returned as it is, keeps that
+			// outcome (rule C5 makes every caller test the value)
+			if (!kept || e == nil) && c.noValueForwarded(fn, call) {
+				c.R.Okf("C1.dropped", name(fn), construct, pos, "the error of "+label+" is left aside, but the nil value that comes with it is what the function returns (the 'no value' outcome)")
+				continue
+			}
 			// C1: not dropped
 			if !c.R.Check(kept && e != nil, "C1.dropped", name(fn), construct, pos,
 				"error of the caller-supplied "+kind+" ("+label+") must not be dropped",
@@ -535,6 +543,49 @@ func (c *Ctx) RuleC(in func(*ssa.Function) bool) int {
 		}
 	}
 	return n
+}
+
+// noValueForwarded: fn is one of the digest functions without an error result,
+// the call is to a library helper that returns (value, error) with a nil value
+// on every failing return, and fn returns that value unchanged.
+func (c *Ctx) noValueForwarded(fn *ssa.Function, ci ssa.CallInstruction) bool {
+	call, ok := ci.(*ssa.Call)
+	if !ok || hasErrorResult(fn) || fn.Signature.Results().Len() != 1 {
+		return false
+	}
+	if !(strings.HasSuffix(name(fn), ".Hash") || fn.Object() != nil && !fn.Object().Exported() && strings.HasPrefix(name(fn), "authenticode.")) {
+		return false
+	}
+	callee := ir.Callee(call)
+	if callee == nil || !c.P.InLib(callee) || callee.Blocks == nil || callee.Signature.Results().Len() != 2 || !hasErrorResult(callee) {
+		return false
+	}
+	for _, r := range ir.Returns(callee) {
+		if len(r.Results) != 2 {
+			return false
+		}
+		if !ir.IsNilConst(r.Results[1]) && !ir.IsNilConst(r.Results[0]) {
+			return false // a failing return that hands out a value
+		}
+	}
+	var val ssa.Value
+	for _, r := range *call.Referrers() {
+		if ex, isEx := r.(*ssa.Extract); isEx && ex.Index == 0 {
+			val = ex
+		}
+	}
+	if val == nil {
+		return false
+	}
+	for _, r := range ir.Returns(fn) {
+		if len(r.Results) != 1 {
+			return false
+		}
+		if r.Results[0] != val && !ir.IsNilConst(r.Results[0]) {
+			return false
+		}
+	}
+	return true
 }
 
 // judgeFailureRegion implements C2: on every path after e != nil, each return
@@ -631,6 +682,12 @@ func (c *Ctx) judgeFailureRegion(fn *ssa.Function, call *ssa.Call, e ssa.Value, 
 		for r, cl := range retClassesFrom(fn, call.Block(), -1) {
 			if cl != "success" || !seen[r.Block().Index] || r.Block() == call.Block() {
 				continue
+			}
+			// a return that hands the error of the call on is not a bypass of it
+			if last := len(r.Results) - 1; last >= 0 {
+				if ev := effectiveResult(fn, r, last); derivesFromErr(ev, e, 0) || sameErrValue(ev, e) {
+					continue
+				}
 			}
 			// reachable without passing any test of the error?
 			if bypass, _ := ir.Reach(fn, call.Block(), cut); bypass[r.Block().Index] {
@@ -836,6 +893,9 @@ func (c *Ctx) errOutParam(fn *ssa.Function) *ssa.Parameter {
 	for _, in := range node.In {
 		if in.Site == nil || !c.P.InLib(in.Caller.Func) {
 			continue
+		}
+		if in.Caller.Func.Synthetic != "" && len(in.Caller.In) == 0 {
+			continue // the pointer-receiver wrapper of the method, which nothing calls
 		}
 		args := ir.CallArgs(in.Site)
 		if idx >= len(args) {
